@@ -163,3 +163,29 @@ Proof.
   - destruct (plan (q2 e0 ag_cnt AONone) MSearch c0 1) as [s| |] eqn:E; [|vm_compute in E; discriminate|vm_compute in E; discriminate].
     exists s. split; [reflexivity|]. vm_compute in E. injection E as <-. vm_compute. reflexivity.
 Qed.
+
+(* groupArray(100): a trace with 101 matching spans.  Every hypothesis of traceql_correct_single except spans_capped holds,
+   the statement evaluates, and its answer is rejected: the span list of t1 holds 100 of the 101 matched spans. *)
+Definition e3 : attr_exp := AExp (HTerm (T ".a" CEq (vstr """b""" "b"))) AONone None.
+Definition d101 : db := map (fun n => R "a" "b" "t1" ("s" ++ string_of_N (N.of_nat n)) 5 1) (seq 0 101).
+Example span_list_cut_witness :
+  rf_max c0 = 0%Z /\ db_consistent c0 d101 /\ keys_ok e3 = true
+  /\ forallb term_lit_ok (fst (snd (analyze_cond e3 ([], [])))) = true
+  /\ (List.length (fst (snd (analyze_cond e3 ([], [])))) <= 64)%nat /\ (cond_depth (fst (analyze_cond e3 ([], []))) <= 28)%nat
+  /\ lits_exact e3 = true
+  /\ List.length (spans_of c0 d101) = 101%nat
+  /\ exists s res, plan (q1 e3 AONone) MSearch c0 1 = Ok s /\ index_rows_g re_toy float_toy hash_toy c0 d101 s = Some res
+                   /\ map (fun r => List.length (snd r)) res = [100%nat]
+                   /\ result_ok c0 (traceql_sem re_toy float_toy false c0 d101 (q1 e3 AONone)) res = false.
+Proof.
+  split; [reflexivity|]. split; [split|].
+  - intros r Hr _. unfold d101 in Hr. apply in_map_iff in Hr. destruct Hr as [n [<- _]]. reflexivity.
+  - intros a b Ha Hb _. unfold d101 in Ha, Hb. apply in_map_iff in Ha, Hb. destruct Ha as [n [<- _]], Hb as [m [<- _]]. split; reflexivity.
+  - split; [vm_compute; reflexivity|]. split; [vm_compute; reflexivity|]. split; [vm_compute; lia|]. split; [vm_compute; lia|].
+    split; [vm_compute; reflexivity|]. split; [vm_compute; reflexivity|].
+    destruct (plan (q1 e3 AONone) MSearch c0 1) as [s| |] eqn:E; [|vm_compute in E; discriminate|vm_compute in E; discriminate].
+    exists s. vm_compute in E. injection E as <-.
+    change (index_rows_g re_toy float_toy hash_toy) with index_rows.
+    destruct (index_rows c0 d101 _) as [res|] eqn:Er; [|vm_compute in Er; discriminate].
+    exists res. split; [reflexivity|]. split; [reflexivity|]. vm_compute in Er. injection Er as <-. split; vm_compute; reflexivity.
+Qed.
